@@ -24,8 +24,11 @@ var c08Authors = []string{vk.FakePub(800), vk.FakePub(801)}
 func c08Filters(r *rand.Rand, base int64) []*mocrelay.ReqFilter {
 	mk := func() *mocrelay.ReqFilter {
 		f := &mocrelay.ReqFilter{}
-		switch r.IntN(5) {
+		switch r.IntN(6) {
 		case 0:
+		case 5:
+			// two tag conditions: both must be met, however often an event meets one of them
+			f.Tags = map[string][]string{"t": {"v1", "v2"}, "p": {c08Authors[0]}}
 		case 1:
 			f.Kinds = []int64{1}
 		case 2:
@@ -57,8 +60,15 @@ func c08Event(r *rand.Rand, tag string, base int64) *mocrelay.Event {
 	if base == c08Wide {
 		base = vk.Pick(r, []int64{math.MinInt64, -5, 0, 1 << 62, math.MaxInt64 - 9})
 	}
+	tags := []mocrelay.Tag{{"t", vk.Pick(r, []string{"v1", "v2"})}}
+	switch r.IntN(6) {
+	case 0:
+		tags = []mocrelay.Tag{{"t", "v1"}, {"t", "v2"}}
+	case 1:
+		tags = append(tags, mocrelay.Tag{"p", c08Authors[0]})
+	}
 	return vk.Seal(&mocrelay.Event{Kind: vk.Pick(r, []int64{1, 1, 7}), Pubkey: vk.Pick(r, c08Authors), CreatedAt: base + int64(r.IntN(10)),
-		Content: tag, Tags: []mocrelay.Tag{{"t", vk.Pick(r, []string{"v1", "v2"})}}})
+		Content: tag, Tags: tags})
 }
 
 func TestVerif_C08(t *testing.T) {
